@@ -35,14 +35,39 @@ theorem current_tree_safe (env : Nat) (henv : env ∈ Gen.current.envs) (e : Mod
 
 /-- **Every advertised name of the current tree exists, whichever optional third-party modules
 are missing**: for every environment, every entry point `e`, every package `p` it star-imports
-and every name `n` of `p.__all__`: `n` is an attribute of `p` and `from p import *` binds it. -/
+(the entry's import, which succeeds, contains `from p import *`): `p.__all__` is a literal list
+and every name `n` of it is an attribute of `p`. -/
 theorem all_exported (env : Nat) (henv : env ∈ Gen.current.envs) (e : ModId) (he : e ∈ Gen.current.entries)
     (E : Module) (hE : Gen.current.modOf e = some E) (p : ModId) (hp : Ev.star p ∈ E.evs)
     (P : Module) (hP : Gen.current.modOf p = some P) (names : List Name) (hall : P.all = some names) :
-    ∃ σ₀, importEntry (Gen.current.withEnv env) e = .ok (σ₀, none) ∧
-      ∀ n ∈ names, (σ₀.get (Gen.current.withEnv env) p n).isSome = true ∧
-        (σ₀.get (Gen.current.withEnv env) e n).isSome = true :=
+    ∃ σ₀, importEntry (Gen.current.withEnv env) e = .ok (σ₀, none) ∧ P.allDynamic = false ∧
+      ∀ n ∈ names, (σ₀.get (Gen.current.withEnv env) p n).isSome = true :=
   exported_envs Gen.current current_tree_resolves env henv e he E hE p hp P hP names hall
+
+/-- the class and `raise` facts of the current tree pass the check -/
+theorem current_exceptions_ok : exceptionsOk Gen.current = true := by decide +kernel
+
+/-- **All lena exceptions of the current tree derive from LenaException**: there is a class
+`LenaException`, and every class defined in `lena/core/exceptions.py` has it among its ancestors. -/
+theorem lena_exceptions_derive :
+    ∃ root, Gen.current.excRoot = some root ∧
+      ∀ i C, Gen.current.classes[i]? = some C → C.isLenaExc = true → Derives Gen.current i root :=
+  let ⟨root, h1, h2, _⟩ := exceptions_of_ok Gen.current current_exceptions_ok
+  ⟨root, h1, h2⟩
+
+/-- **Every `raise` statement of the current tree that names a class names a documented
+exception**: a class that derives from `LenaException`, or a builtin that no lena exception wraps
+(`ImportError`, `StopIteration`), or `AttributeError` inside `__getattr__`/`__setattr__`. -/
+theorem current_raises_documented : ∀ r ∈ Gen.current.raises, RaiseOk Gen.current r :=
+  let ⟨_, _, _, h3⟩ := exceptions_of_ok Gen.current current_exceptions_ok
+  h3
+
+/-- every possibly-unbound read of a local in the current tree is an audited one -/
+theorem current_locals_audited : ∀ u ∈ Gen.current.maybeUnbound, u.audited = true :=
+  locals_audited_partial Gen.current (by decide +kernel)
+
+example : Gen.current.raises ≠ [] := by decide
+example : (Gen.current.classes.any (·.isLenaExc)) = true := by decide
 
 /-- the fixpoint iteration reached a closed set for every entry point of the current tree -/
 theorem current_closures_ok : closuresOk Gen.current = true := by decide +kernel
